@@ -124,8 +124,12 @@ class FsSeam:
     def rel(self, path):
         return os.path.basename(path) if isinstance(path, str) else '<handle>'
 
-    def open_handle(self, path, mode, fault=None):
-        f = open(path, mode)
+    def open_handle(self, path, mode, fault=None, by_fd=False):
+        if by_fd:
+            # a handle whose .name is an integer file descriptor (os.fdopen, tempfile.TemporaryFile ...)
+            f = os.fdopen(os.open(path, os.O_RDWR | os.O_CREAT | os.O_TRUNC), mode)
+        else:
+            f = open(path, mode)
         self.handles.append(f)
         return FaultyFile(f, self, fault) if fault else f
 
